@@ -4,6 +4,75 @@ Import ListNotations.
 From Glb Require Import Lib.NetIP Lib.CidrSet Model.Filter.
 Open Scope N_scope.
 
+(* ------------------------------------------------------------------ panic-free shadow of the model *)
+
+(** The model (Model/Filter.v) returns [None] where Go panics.  The proofs go through total
+    "shadow" functions (suffix [_t]) which do something arbitrary where the model panics;
+    section "no panic" below shows that on well-formed states — all reachable ones — the model
+    returns [Some] of what its shadow computes, so every theorem about the shadows is a
+    theorem about the model. *)
+
+Definition gm_add_t (x : N) (m : gomap) : gomap := Some (set_add x (gm_elems m)).
+Definition maps_insert_t (maps : list gomap) (i : nat) (a : N) : list gomap := upd_f maps i (gm_add_t a).
+Definition maps_delete_t (maps : list gomap) (i : nat) (a : N) : list gomap := upd_f maps i (gm_del a).
+Definition migrate_slot_t (maps : list gomap) (sl : N * N) : list gomap :=
+  if 0 <? snd sl then maps_insert_t maps (N.to_nat (snd sl - 1)) (fst sl) else maps.
+Definition migrate_t (slots : list (N * N)) (maps : list gomap) : list gomap :=
+  fold_left migrate_slot_t slots maps.
+
+Definition add_locked_t (s : state) (nip ones : N) : state :=
+  let e := N.land nip (mask ones) in
+  let k := N.to_nat (ones - 1) in
+  if mode_maps s then
+    mkSt (match_all s) true (index s) (ip_list s) (maps_insert_t (ip_maps s) k e)
+  else if (index s <? list_size)%nat then
+    mkSt (match_all s) false (S (index s)) (upd (ip_list s) (index s) (e, ones)) (ip_maps s)
+  else
+    let m1 := migrate_t (firstn (index s) (ip_list s)) (made_maps (ip_maps s)) in
+    mkSt (match_all s) true (index s) (ip_list s) (maps_insert_t m1 k e).
+
+Definition remove_locked_t (s : state) (nip ones : N) : state :=
+  let e := N.land nip (mask ones) in
+  let k := N.to_nat (ones - 1) in
+  if mode_maps s then
+    mkSt (match_all s) true (index s) (ip_list s) (maps_delete_t (ip_maps s) k e)
+  else
+    mkSt (match_all s) false (index s)
+         (map (zero_if e ones) (firstn (index s) (ip_list s)) ++ skipn (index s) (ip_list s))
+         (ip_maps s).
+
+Definition arg_nip_t (c : cidr) : N := be32 (c_ip c).
+
+Definition add_t (s : state) (c : cidr) : state * result :=
+  if invalid_arg c then (s, RErrInvalid)
+  else if arg_ones c =? 0 then (set_match_all s true, ROk)
+  else (add_locked_t s (arg_nip_t c) (arg_ones c), ROk).
+
+Definition remove_t (s : state) (c : cidr) : state * result :=
+  if invalid_arg c then (s, RErrInvalid)
+  else if arg_ones c =? 0 then (set_match_all s false, ROk)
+  else (remove_locked_t s (arg_nip_t c) (arg_ones c), ROk).
+
+Definition scan_t (s : state) (nip : N) : bool :=
+  if mode_maps s then
+    existsb (fun i => gm_mem (N.land nip (nth i ipv4_masks 0)) (nth i (ip_maps s) None)) (seq 0 32)
+  else
+    existsb (fun sl => (0 <? snd sl) && (N.land nip (mask (snd sl)) =? fst sl))
+            (firstn (index s) (ip_list s)).
+
+Definition contains_t (s : state) (ip : list N) : bool :=
+  if match_all s then true
+  else match to4 ip with
+       | None => false
+       | Some ip4 => scan_t s (be32 ip4)
+       end.
+
+Definition apply_t (s : state) (o : op) : state * result :=
+  match o with Add c => add_t s c | Remove c => remove_t s c end.
+Definition run_from_t (s : state) (ops : list op) : state :=
+  fold_left (fun s o => fst (apply_t s o)) ops s.
+Definition run_t (ops : list op) : state := run_from_t init ops.
+
 (* ------------------------------------------------------------------ arrays *)
 
 Lemma upd_length {A} (l : list A) i x : length (upd l i x) = length l.
@@ -58,6 +127,15 @@ Proof.
   - apply negb_true_iff. apply N.eqb_neq. exact H2.
 Qed.
 
+Lemma In_gm_add_t x a m : In x (gm_elems (gm_add_t a m)) <-> x = a \/ In x (gm_elems m).
+Proof. unfold gm_add_t. cbn [gm_elems]. apply In_set_add. Qed.
+
+Lemma In_gm_del x a m : In x (gm_elems (gm_del a m)) <-> In x (gm_elems m) /\ x <> a.
+Proof. destruct m as [l|]; cbn [gm_del gm_elems]; [apply In_set_del | cbn [In]; tauto]. Qed.
+
+Lemma gm_mem_In x m : gm_mem x m = true <-> In x (gm_elems m).
+Proof. unfold gm_mem. apply set_mem_In. Qed.
+
 (* ------------------------------------------------------------------ the mask table *)
 
 Lemma mask_table_sweep :
@@ -83,15 +161,15 @@ Lemma pmask_0 : pmask 0 = 0. Proof. reflexivity. Qed.
 
 Definition abs_list (slots : list (N * N)) : list key := filter (fun sl => 0 <? snd sl) slots.
 
-Definition abs_maps (maps : list (list N)) : list key :=
-  flat_map (fun i => map (fun a => (a, N.of_nat (S i))) (nth i maps [])) (seq 0 32).
+Definition abs_maps (maps : list gomap) : list key :=
+  flat_map (fun i => map (fun a => (a, N.of_nat (S i))) (gm_elems (nth i maps None))) (seq 0 32).
 
 (** the set of ranges a concrete state stands for (0.0.0.0/0 is the separate flag) *)
 Definition abs (s : state) : list key :=
   if mode_maps s then abs_maps (ip_maps s) else abs_list (firstn (index s) (ip_list s)).
 
 Lemma In_abs_maps k m :
-  In k (abs_maps m) <-> exists i, (i < 32)%nat /\ snd k = N.of_nat (S i) /\ In (fst k) (nth i m []).
+  In k (abs_maps m) <-> exists i, (i < 32)%nat /\ snd k = N.of_nat (S i) /\ In (fst k) (gm_elems (nth i m None)).
 Proof.
   unfold abs_maps. rewrite in_flat_map. split.
   - intros [i [Hi Hk]]. apply in_seq in Hi. apply in_map_iff in Hk. destruct Hk as [a [E Ha]].
@@ -110,73 +188,78 @@ Proof.
   - apply N.ltb_lt. exact H2.
 Qed.
 
-Lemma abs_maps_empty k : ~ In k (abs_maps empty_maps).
+Lemma made_maps_length l : length (made_maps l) = length l.
+Proof. apply map_length. Qed.
+
+Lemma nth_made_maps i l : gm_elems (nth i (made_maps l) None) = [].
 Proof.
-  rewrite In_abs_maps. intros [i [Hi [_ H]]].
-  unfold empty_maps in H. destruct (nth_in_or_default i (repeat (@nil N) 32) []) as [H0|H0].
-  - apply repeat_spec in H0. rewrite H0 in H. exact H.
-  - rewrite H0 in H. exact H.
+  unfold made_maps. revert i. induction l as [|h t IH]; intros [|i]; cbn [map nth gm_elems]; auto.
+Qed.
+
+Lemma abs_maps_empty k l : ~ In k (abs_maps (made_maps l)).
+Proof.
+  rewrite In_abs_maps. intros [i [Hi [_ H]]]. rewrite nth_made_maps in H. exact H.
 Qed.
 
 Lemma In_abs_maps_insert k m i a :
   (i < 32)%nat -> length m = 32%nat ->
-  (In k (abs_maps (maps_insert m i a)) <-> k = (a, N.of_nat (S i)) \/ In k (abs_maps m)).
+  (In k (abs_maps (maps_insert_t m i a)) <-> k = (a, N.of_nat (S i)) \/ In k (abs_maps m)).
 Proof.
-  intros Hi Hl. rewrite !In_abs_maps. unfold maps_insert. split.
+  intros Hi Hl. rewrite !In_abs_maps. unfold maps_insert_t. split.
   - intros [j [Hj [E H]]]. destruct (Nat.eq_dec i j) as [->|Ne].
-    + rewrite nth_upd_f_eq in H by lia. apply In_set_add in H. destruct H as [H|H].
+    + rewrite nth_upd_f_eq in H by lia. apply In_gm_add_t in H. destruct H as [H|H].
       * left. destruct k; cbn [fst snd] in *. congruence.
       * right. exists j. auto.
     + rewrite nth_upd_f_neq in H by exact Ne. right. exists j. auto.
   - intros [->|[j [Hj [E H]]]].
     + exists i. cbn [fst snd]. repeat split; auto.
-      rewrite nth_upd_f_eq by lia. apply In_set_add. auto.
+      rewrite nth_upd_f_eq by lia. apply In_gm_add_t. auto.
     + exists j. repeat split; auto. destruct (Nat.eq_dec i j) as [->|Ne].
-      * rewrite nth_upd_f_eq by lia. apply In_set_add. auto.
+      * rewrite nth_upd_f_eq by lia. apply In_gm_add_t. auto.
       * rewrite nth_upd_f_neq by exact Ne. exact H.
 Qed.
 
 Lemma In_abs_maps_delete k m i a :
   (i < 32)%nat -> length m = 32%nat ->
-  (In k (abs_maps (maps_delete m i a)) <-> In k (abs_maps m) /\ k <> (a, N.of_nat (S i))).
+  (In k (abs_maps (maps_delete_t m i a)) <-> In k (abs_maps m) /\ k <> (a, N.of_nat (S i))).
 Proof.
-  intros Hi Hl. rewrite !In_abs_maps. unfold maps_delete. split.
+  intros Hi Hl. rewrite !In_abs_maps. unfold maps_delete_t. split.
   - intros [j [Hj [E H]]]. destruct (Nat.eq_dec i j) as [->|Ne].
-    + rewrite nth_upd_f_eq in H by lia. apply In_set_del in H. destruct H as [H Hn]. split.
+    + rewrite nth_upd_f_eq in H by lia. apply In_gm_del in H. destruct H as [H Hn]. split.
       * exists j. auto.
       * intros ->. cbn [fst] in Hn. congruence.
     + rewrite nth_upd_f_neq in H by exact Ne. split; [exists j; auto|].
       intros ->. cbn [snd] in E. apply Ne. lia.
   - intros [[j [Hj [E H]]] Hn]. exists j. repeat split; auto.
     destruct (Nat.eq_dec i j) as [->|Ne].
-    + rewrite nth_upd_f_eq by lia. apply In_set_del. split; auto.
+    + rewrite nth_upd_f_eq by lia. apply In_gm_del. split; auto.
       intros Ea. apply Hn. destruct k; cbn [fst snd] in *. congruence.
     + rewrite nth_upd_f_neq by exact Ne. exact H.
 Qed.
 
-Lemma maps_insert_length m i a : length (maps_insert m i a) = length m.
+Lemma maps_insert_length m i a : length (maps_insert_t m i a) = length m.
 Proof. apply upd_f_length. Qed.
-Lemma maps_delete_length m i a : length (maps_delete m i a) = length m.
+Lemma maps_delete_length m i a : length (maps_delete_t m i a) = length m.
 Proof. apply upd_f_length. Qed.
 
 (** the migration copies exactly the slots that are not zeroed *)
-Lemma migrate_length slots m : length (migrate slots m) = length m.
+Lemma migrate_length slots m : length (migrate_t slots m) = length m.
 Proof.
-  revert m; induction slots as [|sl r IH]; intros m; cbn [migrate fold_left]; [reflexivity|].
-  change (length (migrate r (migrate_slot m sl)) = length m). rewrite IH.
-  unfold migrate_slot. destruct (0 <? snd sl); [apply maps_insert_length | reflexivity].
+  revert m; induction slots as [|sl r IH]; intros m; cbn [migrate_t fold_left]; [reflexivity|].
+  change (length (migrate_t r (migrate_slot_t m sl)) = length m). rewrite IH.
+  unfold migrate_slot_t. destruct (0 <? snd sl); [apply maps_insert_length | reflexivity].
 Qed.
 
 Lemma In_abs_migrate k slots m :
   length m = 32%nat -> (forall k', In k' (abs_list slots) -> keyok k') ->
-  (In k (abs_maps (migrate slots m)) <-> In k (abs_list slots) \/ In k (abs_maps m)).
+  (In k (abs_maps (migrate_t slots m)) <-> In k (abs_list slots) \/ In k (abs_maps m)).
 Proof.
   revert m; induction slots as [|sl r IH]; intros m Hl Hok.
-  - cbn [migrate fold_left abs_list filter In]. tauto.
-  - change (migrate (sl :: r) m) with (migrate r (migrate_slot m sl)).
+  - cbn [migrate_t fold_left abs_list filter In]. tauto.
+  - change (migrate_t (sl :: r) m) with (migrate_t r (migrate_slot_t m sl)).
     assert (Hokr : forall k', In k' (abs_list r) -> keyok k').
     { intros k' H. apply Hok. unfold abs_list in *. cbn [filter]. destruct (0 <? snd sl); [right|]; exact H. }
-    unfold migrate_slot. unfold abs_list. cbn [filter]. fold (abs_list r).
+    unfold migrate_slot_t. unfold abs_list. cbn [filter]. fold (abs_list r).
     destruct (0 <? snd sl) eqn:E.
     + assert (Hk : keyok sl). { apply Hok. unfold abs_list. cbn [filter]. rewrite E. left. reflexivity. }
       unfold keyok in Hk.
@@ -189,13 +272,13 @@ Qed.
 
 (* ------------------------------------------------------------------ well-formed states *)
 
-Definition wf (s : state) : Prop :=
+Definition wf0 (s : state) : Prop :=
   length (ip_list s) = list_size /\ (index s <= list_size)%nat /\ length (ip_maps s) = 32%nat
   /\ (forall k, In k (abs s) -> keyok k).
 
-Lemma wf_init : wf init.
+Lemma wf0_init : wf0 init.
 Proof.
-  unfold wf, init, abs. cbn [ip_list index ip_maps mode_maps].
+  unfold wf0, init, abs. cbn [ip_list index ip_maps mode_maps].
   split; [apply repeat_length|]. split; [unfold list_size; lia|]. split; [apply repeat_length|].
   intros k H. cbn [firstn abs_list filter In] in H. contradiction.
 Qed.
@@ -209,10 +292,10 @@ Proof. intros H. exact H. Qed.
 (** Add's critical section adds exactly one range to the abstract set — in list mode,
     at the migration, and in map mode *)
 Lemma abs_add_locked s nip ones k :
-  wf s -> 1 <= ones <= 32 ->
-  (In k (abs (add_locked s nip ones)) <-> k = canon nip ones \/ In k (abs s)).
+  wf0 s -> 1 <= ones <= 32 ->
+  (In k (abs (add_locked_t s nip ones)) <-> k = canon nip ones \/ In k (abs s)).
 Proof.
-  intros (Hl & Hi & Hm & Hok) Ho. unfold add_locked, abs in *.
+  intros (Hl & Hi & Hm & Hok) Ho. unfold add_locked_t, abs in *.
   destruct (mode_maps s) eqn:Em; cbn [mode_maps ip_maps index ip_list].
   - rewrite In_abs_maps_insert by (try exact Hm; lia).
     replace (N.of_nat (S (N.to_nat (ones - 1)))) with ones by lia.
@@ -223,11 +306,11 @@ Proof.
       replace (0 <? ones) with true by lia.
       rewrite in_app_iff. cbn [In]. rewrite canon_mask by exact Ho. intuition congruence.
     + rewrite In_abs_maps_insert;
-        [| lia | rewrite migrate_length; unfold empty_maps; apply repeat_length].
+        [| lia | rewrite migrate_length, made_maps_length; exact Hm].
       replace (N.of_nat (S (N.to_nat (ones - 1)))) with ones by lia.
       rewrite canon_mask by exact Ho.
-      rewrite In_abs_migrate; [| unfold empty_maps; apply repeat_length | exact Hok].
-      pose proof (abs_maps_empty k). tauto.
+      rewrite In_abs_migrate; [| rewrite made_maps_length; exact Hm | exact Hok].
+      pose proof (abs_maps_empty k (ip_maps s)). tauto.
 Qed.
 
 Lemma firstn_map_app {A} (f : A -> A) (l : list A) n :
@@ -260,10 +343,10 @@ Qed.
 
 (** Remove's critical section deletes exactly that range (every copy) *)
 Lemma abs_remove_locked s nip ones k :
-  wf s -> 1 <= ones <= 32 ->
-  (In k (abs (remove_locked s nip ones)) <-> In k (abs s) /\ k <> canon nip ones).
+  wf0 s -> 1 <= ones <= 32 ->
+  (In k (abs (remove_locked_t s nip ones)) <-> In k (abs s) /\ k <> canon nip ones).
 Proof.
-  intros (Hl & Hi & Hm & Hok) Ho. unfold remove_locked, abs in *.
+  intros (Hl & Hi & Hm & Hok) Ho. unfold remove_locked_t, abs in *.
   destruct (mode_maps s) eqn:Em; cbn [mode_maps ip_maps index ip_list].
   - rewrite In_abs_maps_delete by (try exact Hm; lia).
     replace (N.of_nat (S (N.to_nat (ones - 1)))) with ones by lia.
@@ -272,37 +355,37 @@ Proof.
     rewrite canon_mask by exact Ho. tauto.
 Qed.
 
-Lemma wf_add_locked s nip ones : wf s -> 1 <= ones <= 32 -> wf (add_locked s nip ones).
+Lemma wf0_add_locked s nip ones : wf0 s -> 1 <= ones <= 32 -> wf0 (add_locked_t s nip ones).
 Proof.
-  intros W Ho. pose proof W as (Hl & Hi & Hm & Hok). unfold wf. split; [|split; [|split]].
-  - unfold add_locked. destruct (mode_maps s); [exact Hl|].
+  intros W Ho. pose proof W as (Hl & Hi & Hm & Hok). unfold wf0. split; [|split; [|split]].
+  - unfold add_locked_t. destruct (mode_maps s); [exact Hl|].
     destruct (index s <? list_size)%nat; cbn [ip_list]; [rewrite upd_length|]; exact Hl.
-  - unfold add_locked. destruct (mode_maps s); [exact Hi|].
+  - unfold add_locked_t. destruct (mode_maps s); [exact Hi|].
     destruct (index s <? list_size)%nat eqn:E; cbn [index]; [apply Nat.ltb_lt in E; lia | exact Hi].
-  - unfold add_locked. destruct (mode_maps s); cbn [ip_maps]; [rewrite maps_insert_length; exact Hm|].
+  - unfold add_locked_t. destruct (mode_maps s); cbn [ip_maps]; [rewrite maps_insert_length; exact Hm|].
     destruct (index s <? list_size)%nat; cbn [ip_maps]; [exact Hm|].
-    rewrite maps_insert_length, migrate_length. unfold empty_maps. apply repeat_length.
+    rewrite maps_insert_length, migrate_length, made_maps_length. exact Hm.
   - intros k H. apply abs_add_locked in H; [| exact W | exact Ho].
     destruct H as [->|H]; [exact Ho | apply Hok; exact H].
 Qed.
 
-Lemma wf_remove_locked s nip ones : wf s -> 1 <= ones <= 32 -> wf (remove_locked s nip ones).
+Lemma wf0_remove_locked s nip ones : wf0 s -> 1 <= ones <= 32 -> wf0 (remove_locked_t s nip ones).
 Proof.
-  intros W Ho. pose proof W as (Hl & Hi & Hm & Hok). unfold wf. split; [|split; [|split]].
-  - unfold remove_locked. destruct (mode_maps s); cbn [ip_list]; [exact Hl|].
+  intros W Ho. pose proof W as (Hl & Hi & Hm & Hok). unfold wf0. split; [|split; [|split]].
+  - unfold remove_locked_t. destruct (mode_maps s); cbn [ip_list]; [exact Hl|].
     rewrite app_length, map_length, <- app_length, firstn_skipn. exact Hl.
-  - unfold remove_locked. destruct (mode_maps s); exact Hi.
-  - unfold remove_locked. destruct (mode_maps s); cbn [ip_maps]; [rewrite maps_delete_length|]; exact Hm.
+  - unfold remove_locked_t. destruct (mode_maps s); exact Hi.
+  - unfold remove_locked_t. destruct (mode_maps s); cbn [ip_maps]; [rewrite maps_delete_length|]; exact Hm.
   - intros k H. apply abs_remove_locked in H; [| exact W | exact Ho]. apply Hok. tauto.
 Qed.
 
-Lemma wf_set_match_all s b : wf (set_match_all s b) <-> wf s.
-Proof. unfold wf, set_match_all, abs. cbn [ip_list index ip_maps mode_maps]. tauto. Qed.
+Lemma wf0_set_match_all s b : wf0 (set_match_all s b) <-> wf0 s.
+Proof. unfold wf0, set_match_all, abs. cbn [ip_list index ip_maps mode_maps]. tauto. Qed.
 
 Lemma abs_set_match_all s b : abs (set_match_all s b) = abs s.
 Proof. reflexivity. Qed.
 
-(* ------------------------------------------------------------------ the scan *)
+(* ------------------------------------------------------------------ the scan_t *)
 
 Lemma existsb_ext_in {A} (f g : A -> bool) l :
   (forall x, In x l -> f x = g x) -> existsb f l = existsb g l.
@@ -312,9 +395,9 @@ Proof.
 Qed.
 
 (** Contains' critical section answers membership in the abstract set *)
-Lemma scan_abs s nip : wf s -> scan s nip = existsb (fun k => covers k nip) (abs s).
+Lemma scan_abs s nip : wf0 s -> scan_t s nip = existsb (fun k => covers k nip) (abs s).
 Proof.
-  intros (Hl & Hi & Hm & Hok). unfold scan, abs in *. destruct (mode_maps s).
+  intros (Hl & Hi & Hm & Hok). unfold scan_t, abs in *. destruct (mode_maps s).
   - apply eq_true_iff_eq. rewrite !existsb_exists. split.
     + intros [i [Hi' H]]. apply in_seq in Hi'. apply set_mem_In in H.
       rewrite mask_table in H by lia.
@@ -342,26 +425,215 @@ Proof.
     cbn [negb orb andb]; try lia; split; intros; congruence.
 Qed.
 
-Lemma valid_arg_spec c : invalid_arg c = false -> cidr_arg c = Some (arg_nip c, arg_ones c) /\ arg_ones c <= 32.
+Lemma valid_arg_spec c : invalid_arg c = false -> cidr_arg c = Some (arg_nip_t c, arg_ones c) /\ arg_ones c <= 32.
 Proof.
-  unfold invalid_arg, cidr_arg, arg_nip, arg_ones. destruct (mask_size (c_mask c)) as [ones bits].
+  unfold invalid_arg, cidr_arg, arg_nip_t, arg_ones. destruct (mask_size (c_mask c)) as [ones bits].
   cbn [fst].
   destruct (bits =? 32), (N.leb_spec ones 32), (N.ltb_spec 32 ones), (length (c_ip c) =? 4)%nat;
     cbn [negb orb andb]; try lia; try discriminate. intros _. split; [reflexivity | lia].
 Qed.
 
 Theorem invalid_rejected s c :
-  cidr_arg c = None -> add s c = (s, RErrInvalid) /\ remove s c = (s, RErrInvalid).
+  cidr_arg c = None -> add_t s c = (s, RErrInvalid) /\ remove_t s c = (s, RErrInvalid).
 Proof.
-  intros H. apply invalid_arg_spec in H. unfold add, remove. rewrite H. split; reflexivity.
+  intros H. apply invalid_arg_spec in H. unfold add_t, remove_t. rewrite H. split; reflexivity.
 Qed.
 
 Theorem valid_accepted s c :
-  cidr_arg c <> None -> snd (add s c) = ROk /\ snd (remove s c) = ROk.
+  cidr_arg c <> None -> snd (add_t s c) = ROk /\ snd (remove_t s c) = ROk.
 Proof.
-  intros H. unfold add, remove. destruct (invalid_arg c) eqn:E.
+  intros H. unfold add_t, remove_t. destruct (invalid_arg c) eqn:E.
   - apply invalid_arg_spec in E. contradiction.
   - destruct (arg_ones c =? 0); split; reflexivity.
+Qed.
+
+(* ------------------------------------------------------------------ no panic *)
+
+(** in map mode all 32 maps have been made *)
+Definition made (s : state) : Prop := mode_maps s = true -> Forall (fun m : gomap => m <> None) (ip_maps s).
+
+(** the invariant of reachable states *)
+Definition wf (s : state) : Prop := wf0 s /\ made s.
+
+Lemma Forall_upd_f {A} (P : A -> Prop) l i f :
+  Forall P l -> (forall x, P x -> P (f x)) -> Forall P (upd_f l i f).
+Proof.
+  intros H Hf. revert i. induction H as [|h t Hh Ht IH]; intros [|i]; cbn [upd_f]; constructor; auto.
+Qed.
+
+Lemma maps_insert_t_made m i a :
+  Forall (fun m : gomap => m <> None) m -> Forall (fun m : gomap => m <> None) (maps_insert_t m i a).
+Proof. intros H. apply Forall_upd_f; [exact H|]. intros x _. unfold gm_add_t. discriminate. Qed.
+
+Lemma maps_delete_t_made m i a :
+  Forall (fun m : gomap => m <> None) m -> Forall (fun m : gomap => m <> None) (maps_delete_t m i a).
+Proof.
+  intros H. apply Forall_upd_f; [exact H|]. intros [l|] Hx; cbn [gm_del]; [discriminate | exact Hx].
+Qed.
+
+Lemma made_maps_made l : Forall (fun m : gomap => m <> None) (made_maps l).
+Proof. unfold made_maps. apply Forall_forall. intros x Hx. apply in_map_iff in Hx. destruct Hx as [y [<- _]]. discriminate. Qed.
+
+Lemma migrate_t_made slots : forall m,
+  Forall (fun m : gomap => m <> None) m -> Forall (fun m : gomap => m <> None) (migrate_t slots m).
+Proof.
+  induction slots as [|sl r IH]; intros m H; [exact H|].
+  change (migrate_t (sl :: r) m) with (migrate_t r (migrate_slot_t m sl)). apply IH.
+  unfold migrate_slot_t. destruct (0 <? snd sl); [apply maps_insert_t_made|]; exact H.
+Qed.
+
+Lemma wf_init : wf init.
+Proof. split; [exact wf0_init|]. intros H. discriminate. Qed.
+
+Lemma wf_add_locked_t s nip ones : wf s -> 1 <= ones <= 32 -> wf (add_locked_t s nip ones).
+Proof.
+  intros [W M] Ho. split; [apply wf0_add_locked; assumption|].
+  unfold made, add_locked_t in *. destruct (mode_maps s) eqn:Em; cbn [mode_maps ip_maps].
+  - intros _. apply maps_insert_t_made. apply M. reflexivity.
+  - destruct (index s <? list_size)%nat; cbn [mode_maps ip_maps]; [discriminate|].
+    intros _. apply maps_insert_t_made, migrate_t_made, made_maps_made.
+Qed.
+
+Lemma wf_remove_locked_t s nip ones : wf s -> 1 <= ones <= 32 -> wf (remove_locked_t s nip ones).
+Proof.
+  intros [W M] Ho. split; [apply wf0_remove_locked; assumption|].
+  unfold made, remove_locked_t in *. destruct (mode_maps s) eqn:Em; cbn [mode_maps ip_maps].
+  - intros _. apply maps_delete_t_made. apply M. reflexivity.
+  - discriminate.
+Qed.
+
+Lemma wf_set_match_all s b : wf (set_match_all s b) <-> wf s.
+Proof. unfold wf, made. rewrite wf0_set_match_all. cbn [set_match_all mode_maps ip_maps]. tauto. Qed.
+
+Lemma ipv4_masks_length : length ipv4_masks = 32%nat. Proof. reflexivity. Qed.
+
+Lemma mask_at_ok ones : 1 <= ones <= 32 -> mask_at ones = Some (mask ones).
+Proof.
+  intros H. unfold mask_at, mask. replace (ones =? 0) with false by lia.
+  apply nth_error_nth'. rewrite ipv4_masks_length. lia.
+Qed.
+
+Lemma upd_f_upd {A} (l : list A) i f x : nth_error l i = Some x -> upd_f l i f = upd l i (f x).
+Proof.
+  revert i. induction l as [|h t IH]; intros [|i] H; cbn [nth_error] in H; try discriminate; cbn [upd_f upd].
+  - inversion H. reflexivity.
+  - f_equal. apply IH. exact H.
+Qed.
+
+Lemma maps_insert_ok m i a :
+  (i < length m)%nat -> Forall (fun m : gomap => m <> None) m ->
+  maps_insert m i a = Some (maps_insert_t m i a).
+Proof.
+  intros Hi Hm. unfold maps_insert, maps_insert_t.
+  destruct (nth_error m i) as [x|] eqn:E; [|apply nth_error_None in E; lia].
+  rewrite Forall_forall in Hm. specialize (Hm x (nth_error_In _ _ E)).
+  destruct x as [l|]; [|congruence]. cbn [gm_add]. rewrite (upd_f_upd _ _ _ _ E). reflexivity.
+Qed.
+
+Lemma maps_delete_ok m i a : (i < length m)%nat -> maps_delete m i a = Some (maps_delete_t m i a).
+Proof.
+  intros Hi. unfold maps_delete, maps_delete_t.
+  destruct (nth_error m i) as [x|] eqn:E; [|apply nth_error_None in E; lia].
+  rewrite (upd_f_upd _ _ _ _ E). reflexivity.
+Qed.
+
+Lemma migrate_ok slots : forall m,
+  length m = 32%nat -> Forall (fun m : gomap => m <> None) m ->
+  (forall k, In k (abs_list slots) -> keyok k) ->
+  migrate slots m = Some (migrate_t slots m).
+Proof.
+  induction slots as [|sl r IH]; intros m Hl Hm Hok; [reflexivity|].
+  cbn [migrate]. change (migrate_t (sl :: r) m) with (migrate_t r (migrate_slot_t m sl)).
+  assert (Hokr : forall k, In k (abs_list r) -> keyok k).
+  { intros k H. apply Hok. unfold abs_list in *. cbn [filter]. destruct (0 <? snd sl); [right|]; exact H. }
+  unfold migrate_slot, migrate_slot_t. destruct (0 <? snd sl) eqn:E.
+  - assert (Hk : keyok sl). { apply Hok. unfold abs_list. cbn [filter]. rewrite E. left. reflexivity. }
+    unfold keyok in Hk. rewrite maps_insert_ok by (try exact Hm; lia).
+    apply IH; [rewrite maps_insert_length; exact Hl | apply maps_insert_t_made; exact Hm | exact Hokr].
+  - apply IH; assumption.
+Qed.
+
+Lemma slots_upto_ok s : (index s <= length (ip_list s))%nat -> slots_upto s = Some (firstn (index s) (ip_list s)).
+Proof. intros H. unfold slots_upto. replace (index s <=? length (ip_list s))%nat with true by lia. reflexivity. Qed.
+
+(** Add's critical section does not panic on a well-formed state *)
+Lemma add_locked_ok s nip ones :
+  wf s -> 1 <= ones <= 32 -> add_locked s nip ones = Some (add_locked_t s nip ones).
+Proof.
+  intros [(Hl & Hi & Hm & Hok) M] Ho. unfold add_locked, add_locked_t. rewrite mask_at_ok by exact Ho.
+  unfold made, abs in *. destruct (mode_maps s) eqn:Em.
+  - rewrite maps_insert_ok by (try (apply M; reflexivity); lia). reflexivity.
+  - destruct (index s <? list_size)%nat eqn:Ei.
+    + unfold upd_p. replace (index s <? length (ip_list s))%nat with true by lia. reflexivity.
+    + rewrite slots_upto_ok by lia.
+      rewrite migrate_ok; [| rewrite made_maps_length; exact Hm | apply made_maps_made | exact Hok].
+      rewrite maps_insert_ok; [reflexivity | rewrite migrate_length, made_maps_length; lia |].
+      apply migrate_t_made, made_maps_made.
+Qed.
+
+(** Remove's critical section does not panic on a well-formed state *)
+Lemma remove_locked_ok s nip ones :
+  wf s -> 1 <= ones <= 32 -> remove_locked s nip ones = Some (remove_locked_t s nip ones).
+Proof.
+  intros [(Hl & Hi & Hm & Hok) M] Ho. unfold remove_locked, remove_locked_t. rewrite mask_at_ok by exact Ho.
+  destruct (mode_maps s) eqn:Em.
+  - rewrite maps_delete_ok by lia. reflexivity.
+  - rewrite slots_upto_ok by lia. reflexivity.
+Qed.
+
+Lemma scan_list_ok nip slots :
+  (forall k, In k (abs_list slots) -> keyok k) ->
+  scan_list nip slots
+  = Some (existsb (fun sl => (0 <? snd sl) && (N.land nip (mask (snd sl)) =? fst sl)) slots).
+Proof.
+  induction slots as [|sl r IH]; intros Hok; [reflexivity|].
+  assert (Hokr : forall k, In k (abs_list r) -> keyok k).
+  { intros k H. apply Hok. unfold abs_list in *. cbn [filter]. destruct (0 <? snd sl); [right|]; exact H. }
+  cbn [scan_list existsb]. destruct (0 <? snd sl) eqn:E; cbn [andb orb].
+  - assert (Hk : keyok sl). { apply Hok. unfold abs_list. cbn [filter]. rewrite E. left. reflexivity. }
+    rewrite mask_at_ok by exact Hk. destruct (N.land nip (mask (snd sl)) =? fst sl); cbn [orb]; [reflexivity|].
+    apply IH. exact Hokr.
+  - apply IH. exact Hokr.
+Qed.
+
+Lemma scan_maps_ok nip maps is :
+  length maps = 32%nat -> (forall i, In i is -> (i < 32)%nat) ->
+  scan_maps nip maps is
+  = Some (existsb (fun i => gm_mem (N.land nip (nth i ipv4_masks 0)) (nth i maps None)) is).
+Proof.
+  intros Hl. induction is as [|i r IH]; intros Hi; [reflexivity|].
+  cbn [scan_maps existsb].
+  rewrite (nth_error_nth' ipv4_masks 0) by (rewrite ipv4_masks_length; apply Hi; left; reflexivity).
+  rewrite (nth_error_nth' maps None) by (rewrite Hl; apply Hi; left; reflexivity).
+  destruct (gm_mem (N.land nip (nth i ipv4_masks 0)) (nth i maps None)); cbn [orb]; [reflexivity|].
+  apply IH. intros j Hj. apply Hi. right. exact Hj.
+Qed.
+
+(** Contains' critical section does not panic on a well-formed state *)
+Lemma scan_ok s nip : wf s -> scan s nip = Some (scan_t s nip).
+Proof.
+  intros [(Hl & Hi & Hm & Hok) M]. unfold scan, scan_t, abs in *. destruct (mode_maps s).
+  - apply scan_maps_ok; [exact Hm|]. intros i H. apply in_seq in H. lia.
+  - rewrite slots_upto_ok by lia. apply scan_list_ok. exact Hok.
+Qed.
+
+Lemma to4_length ip b : to4 ip = Some b -> length b = 4%nat.
+Proof.
+  unfold to4. destruct (Nat.eqb_spec (length ip) 4) as [E|_].
+  - intros H. inversion H. subst. exact E.
+  - destruct (Nat.eqb_spec (length ip) 16) as [E|_]; cbn [andb]; [|discriminate].
+    destruct (is_zeros (firstn 10 ip) && (nth 10 ip 0 =? 255) && (nth 11 ip 0 =? 255)); [|discriminate].
+    intros H. assert (Hb : b = skipn 12 ip) by congruence. rewrite Hb, skipn_length. lia.
+Qed.
+
+Lemma be32_p_ok b : length b = 4%nat -> be32_p b = Some (be32 b).
+Proof. destruct b as [|? [|? [|? [|? ?]]]]; cbn [length]; intros H; try lia. reflexivity. Qed.
+
+Lemma contains_ok s ip : wf s -> contains s ip = Some (contains_t s ip).
+Proof.
+  intros W. unfold contains, contains_t. destruct (match_all s); [reflexivity|].
+  destruct (to4 ip) as [b|] eqn:E; [|reflexivity].
+  rewrite (be32_p_ok b (to4_length _ _ E)). apply scan_ok. exact W.
 Qed.
 
 (* ------------------------------------------------------------------ refinement *)
@@ -392,36 +664,36 @@ Proof.
 Qed.
 
 (** every operation commutes with the abstraction *)
-Lemma R_step s st o : R s st -> R (fst (apply s o)) (spec_step st o).
+Lemma R_step s st o : R s st -> R (fst (apply_t s o)) (spec_step st o).
 Proof.
-  intros (W & Hma & Hin). destruct o as [c|c]; cbn [apply spec_step].
-  - unfold add. destruct (invalid_arg c) eqn:Ei.
+  intros (W & Hma & Hin). pose proof (proj1 W) as W0. destruct o as [c|c]; cbn [apply_t spec_step].
+  - unfold add_t. destruct (invalid_arg c) eqn:Ei.
     + apply invalid_arg_spec in Ei. rewrite Ei. cbn [fst]. split; [exact W|]. split; [exact Hma | exact Hin].
     + destruct (valid_arg_spec c Ei) as [Ea Hle]. rewrite Ea.
       destruct (arg_ones c =? 0) eqn:E0; cbn [fst snd].
       * split; [apply wf_set_match_all; exact W|]. split; [reflexivity|]. exact Hin.
       * assert (Ho : 1 <= arg_ones c <= 32) by lia.
-        split; [apply wf_add_locked; assumption|]. split.
-        { unfold add_locked. destruct (mode_maps s); [exact Hma|]. destruct (index s <? list_size)%nat; exact Hma. }
+        split; [apply wf_add_locked_t; assumption|]. split.
+        { unfold add_locked_t. destruct (mode_maps s); [exact Hma|]. destruct (index s <? list_size)%nat; exact Hma. }
         intros k. rewrite abs_add_locked by assumption. rewrite Hin. cbn [snd In]. intuition congruence.
-  - unfold remove. destruct (invalid_arg c) eqn:Ei.
+  - unfold remove_t. destruct (invalid_arg c) eqn:Ei.
     + apply invalid_arg_spec in Ei. rewrite Ei. cbn [fst]. split; [exact W|]. split; [exact Hma | exact Hin].
     + destruct (valid_arg_spec c Ei) as [Ea Hle]. rewrite Ea.
       destruct (arg_ones c =? 0) eqn:E0; cbn [fst snd].
       * split; [apply wf_set_match_all; exact W|]. split; [reflexivity|]. exact Hin.
       * assert (Ho : 1 <= arg_ones c <= 32) by lia.
-        split; [apply wf_remove_locked; assumption|]. split.
-        { unfold remove_locked. destruct (mode_maps s); exact Hma. }
+        split; [apply wf_remove_locked_t; assumption|]. split.
+        { unfold remove_locked_t. destruct (mode_maps s); exact Hma. }
         intros k. rewrite abs_remove_locked by assumption. cbn [snd]. rewrite In_filter_ne, Hin. tauto.
 Qed.
 
-Lemma R_run_from s st ops : R s st -> R (run_from s ops) (spec_run_from st ops).
+Lemma R_run_from s st ops : R s st -> R (run_from_t s ops) (spec_run_from st ops).
 Proof.
   revert s st; induction ops as [|o r IH]; intros s st H; [exact H|].
-  cbn [run_from spec_run_from fold_left]. apply IH. apply R_step. exact H.
+  cbn [run_from_t spec_run_from fold_left]. apply IH. apply R_step. exact H.
 Qed.
 
-Lemma R_run ops : R (run ops) (spec_run ops).
+Lemma R_run ops : R (run_t ops) (spec_run ops).
 Proof. apply R_run_from. exact R_init. Qed.
 
 Lemma existsb_iff {A} (f : A -> bool) l1 l2 :
@@ -432,19 +704,19 @@ Proof.
 Qed.
 
 (** a concrete state answers every probe as its live set does *)
-Lemma R_contains s st ip : R s st -> contains s ip = spec_contains_st st ip.
+Lemma R_contains s st ip : R s st -> contains_t s ip = spec_contains_st st ip.
 Proof.
-  intros (W & Hma & Hin). unfold contains, spec_contains_st. rewrite Hma.
+  intros (W & Hma & Hin). unfold contains_t, spec_contains_st. rewrite Hma.
   destruct (fst st); [destruct (to4 ip); reflexivity|].
   destruct (to4 ip) as [b|]; [|reflexivity]. cbn [orb].
-  rewrite scan_abs by exact W. apply existsb_iff. exact Hin.
+  rewrite scan_abs by exact (proj1 W). apply existsb_iff. exact Hin.
 Qed.
 
-Theorem membership ops ip : contains (run ops) ip = spec_contains ops ip.
+Theorem membership ops ip : contains_t (run_t ops) ip = spec_contains ops ip.
 Proof. apply R_contains. apply R_run. Qed.
 
 Theorem refinement ops :
-  match_all (run ops) = match_all_live ops /\ forall k, In k (abs (run ops)) <-> In k (live_set ops).
+  match_all (run_t ops) = match_all_live ops /\ forall k, In k (abs (run_t ops)) <-> In k (live_set ops).
 Proof. destruct (R_run ops) as (_ & H1 & H2). split; assumption. Qed.
 
 (* ------------------------------------------------------------------ probe forms *)
@@ -466,13 +738,13 @@ Qed.
 
 Theorem membership_v4 ops a b c d :
   let r := match_all_live ops || existsb (fun k => covers k (be32 [a; b; c; d])) (live_set ops) in
-  contains (run ops) [a; b; c; d] = r /\ contains (run ops) (v4mapped [a; b; c; d]) = r.
+  contains_t (run_t ops) [a; b; c; d] = r /\ contains_t (run_t ops) (v4mapped [a; b; c; d]) = r.
 Proof.
   cbn zeta. rewrite !membership. unfold spec_contains, spec_contains_st.
   rewrite to4_len4, to4_mapped. split; reflexivity.
 Qed.
 
-Theorem membership_not_v4 ops ip : to4 ip = None -> contains (run ops) ip = match_all_live ops.
+Theorem membership_not_v4 ops ip : to4 ip = None -> contains_t (run_t ops) ip = match_all_live ops.
 Proof. intros H. rewrite membership. unfold spec_contains, spec_contains_st. rewrite H. reflexivity. Qed.
 
 (* ------------------------------------------------------------------ what [covers] means *)
@@ -526,13 +798,101 @@ Qed.
 Lemma be32_bound a b c d : a < 256 -> b < 256 -> c < 256 -> d < 256 -> be32 [a; b; c; d] < 2 ^ 32.
 Proof. intros. unfold be32. change (2 ^ 32) with 4294967296. lia. Qed.
 
+(* ------------------------------------------------------------------ the model itself: no panic, same answers *)
+
+Lemma add_ok s c : wf s -> add s c = Some (add_t s c).
+Proof.
+  intros W. unfold add, add_t. destruct (invalid_arg c) eqn:Ei; [reflexivity|].
+  destruct (valid_arg_spec c Ei) as [Ea Hle]. destruct (arg_ones c =? 0) eqn:E0; [reflexivity|].
+  assert (Hlen : length (c_ip c) = 4%nat).
+  { unfold invalid_arg in Ei. destruct (mask_size (c_mask c)) as [ones bits].
+    destruct (Nat.eqb_spec (length (c_ip c)) 4) as [E|E]; [exact E|].
+    rewrite !orb_true_r in Ei. discriminate. }
+  unfold arg_nip, arg_nip_t. rewrite (be32_p_ok _ Hlen). rewrite add_locked_ok by (try exact W; lia). reflexivity.
+Qed.
+
+Lemma remove_ok s c : wf s -> remove s c = Some (remove_t s c).
+Proof.
+  intros W. unfold remove, remove_t. destruct (invalid_arg c) eqn:Ei; [reflexivity|].
+  destruct (valid_arg_spec c Ei) as [Ea Hle]. destruct (arg_ones c =? 0) eqn:E0; [reflexivity|].
+  assert (Hlen : length (c_ip c) = 4%nat).
+  { unfold invalid_arg in Ei. destruct (mask_size (c_mask c)) as [ones bits].
+    destruct (Nat.eqb_spec (length (c_ip c)) 4) as [E|E]; [exact E|].
+    rewrite !orb_true_r in Ei. discriminate. }
+  unfold arg_nip, arg_nip_t. rewrite (be32_p_ok _ Hlen). rewrite remove_locked_ok by (try exact W; lia). reflexivity.
+Qed.
+
+Lemma apply_ok s o : wf s -> Filter.apply s o = Some (apply_t s o).
+Proof. intros W. destruct o; [apply add_ok | apply remove_ok]; exact W. Qed.
+
+Lemma run_from_ok ops : forall s st, R s st -> run_from s ops = Some (run_from_t s ops).
+Proof.
+  induction ops as [|o r IH]; intros s st H; [reflexivity|].
+  cbn [run_from]. rewrite (apply_ok s o (proj1 H)).
+  destruct (apply_t s o) as [s' res] eqn:E. cbn [run_from_t fold_left]. rewrite E. cbn [fst].
+  apply (IH s' (spec_step st o)). pose proof (R_step s st o H) as H'. rewrite E in H'. exact H'.
+Qed.
+
+Lemma run_ok ops : run ops = Some (run_t ops).
+Proof. exact (run_from_ok ops init _ R_init). Qed.
+
+(** C11_no_panic: no call of any history panics, and in the state reached no call would *)
+Theorem no_panic ops :
+  exists s, run ops = Some s
+            /\ (forall c, exists s' r, add s c = Some (s', r))
+            /\ (forall c, exists s' r, remove s c = Some (s', r))
+            /\ (forall ip, exists b, contains s ip = Some b).
+Proof.
+  exists (run_t ops). pose proof (proj1 (R_run ops)) as W. split; [apply run_ok|]. split; [|split].
+  - intros c. rewrite (add_ok _ c W). destruct (add_t (run_t ops) c); eauto.
+  - intros c. rewrite (remove_ok _ c W). destruct (remove_t (run_t ops) c); eauto.
+  - intros ip. rewrite (contains_ok _ ip W). eauto.
+Qed.
+
+Theorem membership_p ops ip :
+  exists s, run ops = Some s /\ contains s ip = Some (spec_contains ops ip).
+Proof.
+  exists (run_t ops). split; [apply run_ok|].
+  rewrite (contains_ok _ ip (proj1 (R_run ops))). f_equal. apply membership.
+Qed.
+
+Theorem membership_v4_p ops a b c d :
+  let r := match_all_live ops || existsb (fun k => covers k (be32 [a; b; c; d])) (live_set ops) in
+  exists s, run ops = Some s /\ contains s [a; b; c; d] = Some r /\ contains s (v4mapped [a; b; c; d]) = Some r.
+Proof.
+  cbn zeta. exists (run_t ops). pose proof (proj1 (R_run ops)) as W. split; [apply run_ok|].
+  rewrite !(contains_ok _ _ W). destruct (membership_v4 ops a b c d) as [H1 H2]. cbn zeta in H1, H2.
+  rewrite H1, H2. split; reflexivity.
+Qed.
+
+Theorem invalid_rejected_p s c :
+  cidr_arg c = None -> add s c = Some (s, RErrInvalid) /\ remove s c = Some (s, RErrInvalid).
+Proof.
+  intros H. apply invalid_arg_spec in H. unfold add, remove. rewrite H. split; reflexivity.
+Qed.
+
+Theorem valid_accepted_p ops s c :
+  run ops = Some s -> cidr_arg c <> None ->
+  (exists s', add s c = Some (s', ROk)) /\ (exists s', remove s c = Some (s', ROk)).
+Proof.
+  intros Hr Hc. rewrite run_ok in Hr. inversion Hr. subst s. pose proof (proj1 (R_run ops)) as W.
+  rewrite (add_ok _ c W), (remove_ok _ c W). destruct (valid_accepted (run_t ops) c Hc) as [H1 H2].
+  destruct (add_t (run_t ops) c) as [s1 r1], (remove_t (run_t ops) c) as [s2 r2]. cbn [snd] in *. subst.
+  split; eauto.
+Qed.
+
+Theorem refinement_p ops :
+  exists s, run ops = Some s /\ match_all s = match_all_live ops
+            /\ forall k, In k (abs s) <-> In k (live_set ops).
+Proof. exists (run_t ops). split; [apply run_ok | apply refinement]. Qed.
+
 (* ------------------------------------------------------------------ the pinned commit *)
 
 (** net.ParseIP("10.1.2.3") (16-byte form) with 10.0.0.0/8 present: the pinned Contains said false *)
 Theorem pinned_refuted :
-  exists ops ip, to4 ip <> None /\ contains_pinned (run ops) ip <> spec_contains ops ip
-                 /\ contains (run ops) ip = spec_contains ops ip.
+  exists ops ip s, run ops = Some s /\ spec_contains ops ip = true
+                   /\ contains_pinned s ip = Some false /\ contains s ip = Some true.
 Proof.
-  exists [Add (mkCidr [10; 0; 0; 0] [255; 0; 0; 0])], (v4mapped [10; 1; 2; 3]).
-  vm_compute. repeat split; discriminate.
+  exists [Add (mkCidr [10; 0; 0; 0] [255; 0; 0; 0])], (v4mapped [10; 1; 2; 3]). eexists.
+  vm_compute. repeat split; reflexivity.
 Qed.
